@@ -429,7 +429,7 @@ WITNESSES = [
                          "advanced_screen = reveal_plates(screen.subset_observed().to_screen(), args.plate_id)", 1), ["R1"]),
 ]
 
-TECHNIQUE = "construction-site provenance (def-use) + call-graph reachability + id-scope typestate over reaching definitions"
+TECHNIQUE = "construction-site provenance (def-use) + call-graph reachability + id-scope typestate over reaching definitions; writer/reader key-table agreement of the archives and a one-loader-kind-per-path rule over the commands"
 LEVEL_TEXT = ("Decides, for every path of the current source, the structural necessary conditions of id stability: "
               "which Screen constructions may re-encode, that lifecycle code never reaches them, that mappings are "
               "threaded from the same root as the rows, and that no id crosses a re-encoding boundary. A rule "
